@@ -3,8 +3,8 @@
 package tun
 
 import (
-	"time"
 	"testing"
+	"time"
 
 	"pgregory.net/rapid"
 	"verif/harness/common"
@@ -35,6 +35,6 @@ func TestC04B(t *testing.T) {
 		rec.Sample("bubble", map[string]any{"plan_gw_steps": len(p.Gw), "trace_head": Dump(br.Events, 0)[:min(len(br.Events), 30)]})
 		return nil
 	}
-	common.Drive(t, rec, func(rt *rapid.T) *Plan { return genPlanC04(rt, false) }, run)
+	common.Drive(t, rec, func(rt *rapid.T) *Plan { return withEdgeChannels(rt, genPlanC04(rt, false)) }, run)
 	completed = true
 }
